@@ -12,9 +12,11 @@ TailDefault == {P("execp", "none"), P("evalp", "c_replace")}
 
 \* ---- C02: got/want verdicts
 C02_Bodies == {"exec", "execp", "execpp", "eval", "evalp", "evaln", "evalnp", "comment"}
-C02_Wants  == {"none", "all", "own", "repr", "str", "c_replace", "c_append", "c_prepend", "c_drop"}
+C02_Wants  == {"none", "all", "own", "repr", "str", "c_replace", "c_append", "c_prepend", "c_drop", "c_stale"}
 C02_Parts  == PartSet(C02_Bodies, C02_Wants, NoDirs, {FALSE})
               \cup {P("praise", "tb_exact"), P("raise", "tb_stack")}      \* an expected exception (after printing) must not disturb the wants that follow
+              \* a want that is not checked (IGNORE_WANT on that statement) still ends the stretch of output later wants refer to
+              \cup PartSet({"execp", "evalp"}, {"all", "c_replace"}, {<<D("IGNORE_WANT", TRUE)>>}, {TRUE})
 
 \* ---- C04: directive scoping
 C04_DirSeqs1 == {<<D(n, pos)>> : n \in {"SKIP", "REQa", "REQb", "REQmet"}, pos \in BOOLEAN}
